@@ -33,6 +33,43 @@ class Inconclusive(Exception):
     """Raised by a check when its deciding monitor cannot observe."""
 
 
+class CaseWatchdog(BaseException):
+    """Raised in the main thread by the per-case wall-clock watchdog (never a verdict: the case is inconclusive)."""
+
+
+class case_watchdog:
+    """Generous wall-clock bound around one judged case (SIGALRM, main thread only).
+
+    A case that exceeds it is reported *inconclusive*, never as a violation: termination verdicts are taken on logical
+    clocks (step counts, load counts) by the checks that own them.
+    """
+
+    def __init__(self, seconds: float | None):
+        self.seconds = seconds
+        self.armed = False
+
+    def __enter__(self):
+        import signal
+        import threading
+
+        if self.seconds and threading.current_thread() is threading.main_thread() and hasattr(signal, "setitimer"):
+            def _fire(signum, frame):
+                raise CaseWatchdog(f"case exceeded the {self.seconds:.0f}s wall-clock watchdog")
+
+            self._old = signal.signal(signal.SIGALRM, _fire)
+            signal.setitimer(signal.ITIMER_REAL, self.seconds)
+            self.armed = True
+        return self
+
+    def __exit__(self, *a):
+        if self.armed:
+            import signal
+
+            signal.setitimer(signal.ITIMER_REAL, 0)
+            signal.signal(signal.SIGALRM, self._old)
+        return False
+
+
 def stable_hash(obj: Any) -> int:
     data = json.dumps(obj, sort_keys=True, default=repr, ensure_ascii=True).encode()
     return int.from_bytes(hashlib.blake2b(data, digest_size=8).digest(), "big")
